@@ -179,6 +179,72 @@ func runNorm(m *model.Model, s *ob.Set) {
 					step(b, in[bi], true)
 				}
 			}
+			// error exits: a raw mantissa may be left behind only under a form that is known to
+			// be non-finite (must-analysis: on every path the last write of the form is a
+			// non-finite constant)
+			{
+				nf := make([]int, n) // 0 unreached, 1 definitely non-finite, 2 unknown
+				nf[0] = 2
+				formStep := func(ins ssa.Instruction, v int) int {
+					switch x := ins.(type) {
+					case *ssa.Store:
+						if fa, ok := m.DecField(x.Addr); ok && fa.Field == m.F.Form && m.RefOf(fa.X).MayBeParam(k) {
+							if c, ok := model.ConstInt(x.Val); ok && c != finite {
+								return 1
+							}
+							return 2
+						}
+					case ssa.CallInstruction:
+						cal, c := model.Callee(x)
+						if cal == nil {
+							return v
+						}
+						for ai, a := range c.Args {
+							if m.IsDecPtr(a.Type()) && m.RefOf(a).MayBeParam(k) {
+								if ss := m.StoreSets(cal, ai); ss != nil && ss[m.F.Form] != nil {
+									return 2
+								}
+							}
+						}
+					}
+					return v
+				}
+				wl := []int{0}
+				for len(wl) > 0 {
+					bi := wl[len(wl)-1]
+					wl = wl[:len(wl)-1]
+					if !live[bi] {
+						continue
+					}
+					out := nf[bi]
+					for _, ins := range fn.Blocks[bi].Instrs {
+						out = formStep(ins, out)
+					}
+					for _, ed := range model.LiveSuccs(fn.Blocks[bi]) {
+						if out > nf[ed.To.Index] {
+							nf[ed.To.Index] = out
+							wl = append(wl, ed.To.Index)
+						}
+					}
+				}
+				for bi, b := range fn.Blocks {
+					if nf[bi] == 0 || in[bi] == 0 || !live[bi] {
+						continue
+					}
+					ret, ok := b.Instrs[len(b.Instrs)-1].(*ssa.Return)
+					if !ok || isSuccessReturn(m, ret) {
+						continue
+					}
+					st, v := in[bi], nf[bi]
+					for _, ins := range b.Instrs {
+						v = formStep(ins, v)
+					}
+					st = step(b, st, false)
+					if st != clean && v != 1 {
+						bad = append(bad, fmt.Sprintf("%s: an error exit leaves a raw (not normalised, not rounded) mantissa in the receiver while its form may still be finite: a failed call must leave a zero or an infinity, not an invalid finite number", m.InstrPos(ret)))
+					}
+				}
+			}
 			if len(bad) == 0 {
 				s.Ok(R, c, m.InstrPos(stores[0]), fmt.Sprintf("%d computed mantissa store(s); every success exit is normalised and rounded (or non-finite)", len(stores)))
 			} else {
@@ -1188,7 +1254,7 @@ func runShiftDir(m *model.Model, s *ob.Set) {
 // ---------------------------------------------------------------- LOWCUT, DECNORM
 
 func init() {
-	Register(&Rule{Name: "LOWCUT", Floor: 3, Run: runLowCut,
+	Register(&Rule{Name: "LOWCUT", Floor: 2, Run: runLowCut,
 		Doc: "low-order words of a Decimal's mantissa are never sliced away outside round (which computes the sticky bit of what it drops) unless exactly the dropped digits are summarised by sticky(words*_DW) that reaches the rounding: digits that are dropped silently are lost to rounding and accuracy"})
 	Register(&Rule{Name: "DECNORM", Floor: 10, Run: runDecNorm,
 		Doc: "every dec-layer function that returns a dec returns a normalised value: the result of norm(), of another such function, an empty slice, or its own (normalised) parameter"})
@@ -1204,6 +1270,31 @@ func runLowCut(m *model.Model, s *ob.Set) {
 	sear := m.Lookup("(*Decimal).setExpAndRound")
 	round := m.Lookup("(*Decimal).round")
 	n := 0
+	highCuts := map[*ssa.Function][]*ssa.Slice{}
+	seenTabled := map[string]bool{}
+	defer func() {
+		// m[:k] on a mantissa drops the most significant words; only round does that, after
+		// it has moved the words it keeps to the front
+		var fns []*ssa.Function
+		for fn := range highCuts {
+			fns = append(fns, fn)
+		}
+		sort.Slice(fns, func(i, j int) bool { return m.FuncName(fns[i]) < m.FuncName(fns[j]) })
+		for _, fn := range fns {
+			name := m.FuncName(fn)
+			c := name + "/top"
+			if name == "(*Decimal).round" {
+				s.Ok(R, c, m.InstrPos(highCuts[fn][0]), "round truncates after moving the kept (most significant) words to the front")
+				continue
+			}
+			s.Bad(R, c, m.InstrPos(highCuts[fn][0]), fmt.Sprintf("%s: a Decimal's mantissa is sliced as m[:k]: the words kept are the LEAST significant ones (the mantissa is little-endian); the most significant digits are dropped", m.InstrPos(highCuts[fn][0])))
+		}
+		for name, why := range tabled {
+			if !seenTabled[name] {
+				s.Note(R, name, "-", "tabled ("+why+") but no low cut found in this function any more")
+			}
+		}
+	}()
 	for _, fn := range m.Funcs {
 		if !m.InDecimalPkg(fn) || inKernelLayer(m, fn) {
 			continue
@@ -1216,10 +1307,33 @@ func runLowCut(m *model.Model, s *ob.Set) {
 			}
 			for _, in := range b.Instrs {
 				sl, ok := in.(*ssa.Slice)
-				if !ok || sl.Low == nil || !m.IsWordSlice(sl.X.Type()) {
+				if !ok || !m.IsWordSlice(sl.X.Type()) {
 					continue
 				}
-				if k, ok := model.ConstInt(sl.Low); ok && k == 0 {
+				lowZero := sl.Low == nil
+				if k, ok := model.ConstInt(sl.Low); sl.Low != nil && ok && k == 0 {
+					lowZero = true
+				}
+				if lowZero {
+					// m[:k]: the TOP words (most significant digits) are cut off unless k == len(m)
+					if sl.High == nil {
+						continue
+					}
+					if k, ok := model.ConstInt(sl.High); ok && k == 0 {
+						continue // m[:0]: buffer reuse
+					}
+					if call, ok := sl.High.(*ssa.Call); ok && model.BuiltinName(&call.Call) == "len" && structEq(call.Call.Args[0], sl.X, 4) {
+						continue
+					}
+					isM := false
+					for l := range m.RootsOf(sl.X) {
+						if strings.HasSuffix(l, ".mant") {
+							isM = true
+						}
+					}
+					if isM {
+						highCuts[fn] = append(highCuts[fn], sl)
+					}
 					continue
 				}
 				isMant := false
@@ -1266,6 +1380,7 @@ func runLowCut(m *model.Model, s *ob.Set) {
 		name := m.FuncName(fn)
 		c := name
 		if why, ok := tabled[name]; ok {
+			seenTabled[name] = true
 			s.Ok(R, c, m.InstrPos(cuts[0]), fmt.Sprintf("%d low cut(s), tabled: %s", len(cuts), why))
 			continue
 		}
@@ -1332,8 +1447,8 @@ func runLowCut(m *model.Model, s *ob.Set) {
 			s.Bad(R, c, m.InstrPos(cuts[0]), bad[0], bad[1:]...)
 		}
 	}
-	if n < 3 {
-		model.Fatal("LOWCUT: only %d low cuts of a mantissa found (round, GobEncode, toa expected)", n)
+	if n < 1 {
+		model.Fatal("LOWCUT: no low cut of a mantissa found at all (round, GobEncode, toa expected): the rule is blind")
 	}
 }
 
